@@ -815,7 +815,7 @@ fn plain_machine(states: Vec<State>) -> Machine {
 /// Minimal hand-made cases for the deviations found while designing (F5, F7, F10, F11).
 pub fn probes() -> Vec<SimCase> {
     let mut res = Vec::new();
-    // F5: pps = 2^32 truncates to 0 in `window / pps as u32`
+    // F5 (fixed in /repo, regression case): pps = 2^32 used to truncate to 0 in `window / pps as u32`
     res.push(SimCase { id: "probe-F5-pps-2pow32".into(), kind: "probe".into(), mc: vec![], ms: vec![], trace: vec![(0, true)], delay_ns: 0, runs: vec![probe_run(Some(1usize << 32))] });
     // F7: non-bypass block extended by a bypass block, then bypass padding
     {
@@ -828,7 +828,7 @@ pub fn probes() -> Vec<SimCase> {
         s3.action = Some(Action::SendPadding { bypass: true, replace: false, timeout: konst(1000.0), limit: None });
         res.push(SimCase { id: "probe-F7-bypass-extension".into(), kind: "probe".into(), mc: vec![plain_machine(vec![s0, s1, s2, s3])], ms: vec![], trace: vec![(0, true), (50_000_000, true)], delay_ns: 1_000_000, runs: vec![probe_run(None)] });
     }
-    // F10: UpdateTimer with duration 0, no timer running, no replace
+    // F10 (fixed in /repo, regression case): UpdateTimer with duration 0, no timer running, no replace
     {
         let s0 = State::new(enum_map! { Event::NormalSent => tr1(1), _ => vec![] });
         let mut s1 = State::new(enum_map! { _ => vec![] });
